@@ -60,11 +60,11 @@ def type_text(t, safe: bool) -> str:
     """documented mapping API type -> Safe-DS type text (unions: sorted set, Nothing? last)"""
     k = t["kind"]
     if k == "NamedType":
-        return BUILTIN.get(t["name"], t["name"])
+        return BUILTIN.get(t["name"], esc(t["name"]))
     if k == "FinalType":
         return type_text(t["type"], safe)
     if k in ("ListType", "SetType", "NamedSequenceType"):
-        name = {"ListType": "List", "SetType": "Set"}.get(k) or t["name"]
+        name = {"ListType": "List", "SetType": "Set"}.get(k) or esc(t["name"])
         args = [type_text(x, safe) for x in t["types"]]
         return f"{name}<{', '.join(args) if args else 'Any'}>"
     if k == "TupleType":
@@ -91,7 +91,11 @@ def type_text(t, safe: bool) -> str:
         ms = t["types"]
         lits = [m for m in ms if m["kind"] == "LiteralType"]
         others = [m for m in ms if m["kind"] != "LiteralType"]
-        all_lits = [v for m in lits for v in m["literals"]]
+        all_lits = []
+        for m in lits:
+            for v in m["literals"]:
+                if not any(type(w) is type(v) and w == v for w in all_lits):
+                    all_lits.append(v)
         if lits and len(others) == 1 and is_none(others[0]) and (len(lits) >= 2 or len(ms) == 2):
             return "literal<" + ", ".join(lit_text(v) for v in all_lits + [None]) + ">"
         if len(lits) >= 2:
@@ -214,7 +218,7 @@ def param_keys(p) -> set:
 def shown_results(f):
     """(suppressed?, [(name, type)]) per the property: a None result means no results at all"""
     rs = f["results"]
-    if any(r["type"] is not None and is_none(r["type"]) for r in rs):
+    if len(rs) == 1 and rs[0]["type"] is not None and is_none(rs[0]["type"]):
         return True, []
     return False, [(r["name"], r["type"]) for r in rs if r["type"] is not None and not renders_empty(r["type"])]
 
@@ -378,12 +382,6 @@ def expected_fun_todos(f, is_method: bool, shown_tvs) -> set:
             ks |= type_keys(t)
         if not shown:
             ks.add("result without type")
-    else:
-        for r in f["results"]:
-            if r["type"] is not None and is_none(r["type"]):
-                break
-            if r["type"] is not None:
-                ks |= type_keys(r["type"])
     return ks
 
 
